@@ -95,6 +95,14 @@ Proof.
 Qed.
 
 (* non-vacuity, and what collect / count / foldl / foldr / collect_exactly see *)
+(* the bounds a configuration closure sets do not depend on the order of the builder calls: cfg.at_most(n).at_least(n/2)
+   (code 9) and cfg.at_least(n/2).at_most(n) (code 10) configure the same repetition; the harness calls them in those orders *)
+Theorem C02_configured_bounds_do_not_depend_on_builder_order :
+  forall a lo hi ctx,
+    mk_iter (IRepCfg a lo hi 9) ctx = mk_iter (IRepCfg a lo hi 10) ctx /\
+    mk_iter (IRepCfg a lo hi 9) ctx = SCfg 0 (Nat.div2 (val_count (cval ctx))) (Some (val_count (cval ctx))).
+Proof. intros. split; reflexivity. Qed.
+
 Example C02_example :
   let toks := [97; 44; 97; 44; 98]%N in
   let item := OneOf [97; 98]%N in
@@ -132,3 +140,4 @@ Print Assumptions C02_enumerate_indices.
 Print Assumptions C02_into_iter_items.
 Print Assumptions C02_into_iter_fails_with_its_parser.
 Print Assumptions C02_iterable_then_yields_first_then_second.
+Print Assumptions C02_configured_bounds_do_not_depend_on_builder_order.
